@@ -32,7 +32,9 @@ func (c *m3) trial(f func()) (string, bool) {
 	savedEff := c.effect
 	c.sb.Reset()
 	c.effect = false
+	savedNN := c.nnSave()
 	f()
+	c.nn = savedNN
 	out := c.sb.String()
 	eff := c.effect
 	c.sb.Reset()
@@ -1447,10 +1449,21 @@ func (c *m3) isMutexCall(e ast.Expr) bool {
 		return false
 	}
 	n, ok := derefNamed(tv.Type)
-	return ok && n.Obj().Pkg() != nil && n.Obj().Pkg().Path() == "sync"
+	if !(ok && n.Obj().Pkg() != nil && n.Obj().Pkg().Path() == "sync") {
+		return false
+	}
+	if len(call.Args) != 0 {
+		return false
+	}
+	if why := c.notDiscardable5(sel.X); why != "" {
+		c.fail(call, "the lock operation `%s` is dropped by the translation but %s", c.srcText(call.Pos(), call.End()), why)
+	}
+	return true
 }
 
 func (c *m3) blk(stmts []ast.Stmt, ind string, tail tailFn) {
+	savedNN := c.nnSave()
+	defer func() { c.nn = savedNN }()
 	for i, s := range stmts {
 		rest := stmts[i+1:]
 		label := ""
@@ -1652,6 +1665,9 @@ func (c *m3) simple(s ast.Stmt, ind string) {
 				}
 				o := c.p.info.Defs[vn]
 				if c.erased[o] {
+					if len(vs.Values) > 0 {
+						c.ex(vs.Values[i]) // the text is erased, its operands are still evaluated
+					}
 					continue
 				}
 				if len(vs.Values) > 0 {
@@ -1782,7 +1798,8 @@ func (c *m3) storePath(lhs ast.Expr, term string) {
 			return
 		}
 		name := c.vn(o)
-		if n := len(c.pend); n > 0 && strings.HasSuffix(term, "_") {
+		c.nnRebind(name)
+		if n := len(c.pend); n > 0 && isTempName(term) {
 			pre := "do " + term + " <- "
 			if strings.HasPrefix(c.pend[n-1], pre) {
 				c.pend[n-1] = "do " + name + " <- " + strings.TrimPrefix(c.pend[n-1], pre)
@@ -2262,8 +2279,10 @@ func (c *m3) loopShape0(s ast.Stmt, st []types.Object) (loopShape, func(string))
 			c.fail(s, "range over `%s`, which is not a slice, array, string or map", c.srcText(s.X.Pos(), s.X.End()))
 		}
 		x := c.listBase(s.X)
-		if xt.str && v != "_" {
-			c.fail(s, "range over a string with an element variable (runes are not modelled)")
+		if xt.str {
+			// (phase 5, H9) Go iterates over the RUNES of a string: the index jumps over multi-byte sequences and
+			// the number of iterations is the number of runes, also without an element variable
+			c.fail(s, "range over a string (Go iterates over runes, which are not modelled; index the string byte by byte instead)")
 		}
 		switch {
 		case k == "_" && v == "_":
@@ -2329,6 +2348,9 @@ func (c *m3) loop(s ast.Stmt, body *ast.BlockStmt, rest []ast.Stmt, ind string, 
 	run := func(tier int) func() {
 		return func() {
 			c.loops = append(c.loops, &loop3{tier: tier, st: st, label: label, lastOfOuter: lastOfOuter})
+			for _, o := range st {
+				c.nnRebind(c.vn(o)) // rebound by earlier iterations
+			}
 			bi := ind + "    "
 			if sh.pre != nil {
 				sh.pre(bi)
